@@ -54,13 +54,17 @@ func zzC10Pick() zzC10Input {
 	if nondet.Thorough() && nondet.Bool("twoContainers") {
 		in.nContainers = 2
 	}
-	switch nondet.String("nodeAnnotation", "", "r1", "r2", "malformed") {
+	switch nondet.String("nodeAnnotation", "", "r1", "r2", "malformed", "undecodable", "wrong-shape") {
 	case "r1":
 		in.annotation = "r1"
 	case "r2":
 		in.annotation = "r2"
 	case "malformed":
 		in.annotation = "malformed"
+	case "undecodable":
+		in.annotation = "undecodable"
+	case "wrong-shape":
+		in.annotation = "wrong-shape"
 	}
 	switch nondet.String("setting", "", "agent", "sidecar") {
 	case "agent":
@@ -69,6 +73,11 @@ func zzC10Pick() zzC10Input {
 		in.setting = "sidecar"
 	}
 	return in
+}
+
+// unusable: the override annotation is present but cannot be decoded into resources
+func (in zzC10Input) unusable() bool {
+	return in.annotation == "malformed" || in.annotation == "undecodable" || in.annotation == "wrong-shape"
 }
 
 func zzC10Build(in zzC10Input) (*datadoghqv1alpha1.ExtendedDaemonSetReplicaSet, *corev1.Node, *datadoghqv1alpha1.ExtendedDaemonsetSetting) {
@@ -99,8 +108,12 @@ func zzC10Build(in zzC10Input) (*datadoghqv1alpha1.ExtendedDaemonSetReplicaSet, 
 		node.Annotations[zzAnnPrefix+"agent"] = `{"requests":{"cpu":"200m"}}`
 	case "r2":
 		node.Annotations[zzAnnPrefix+"agent"] = `{"requests":{"cpu":"300m"},"limits":{"cpu":"1"}}`
-	case "malformed":
+	case "malformed": // not JSON at all
 		node.Annotations[zzAnnPrefix+"agent"] = `{"requests":`
+	case "undecodable": // JSON, but not a quantity
+		node.Annotations[zzAnnPrefix+"agent"] = `{"requests":{"cpu":"lots"}}`
+	case "wrong-shape": // JSON, but not an object
+		node.Annotations[zzAnnPrefix+"agent"] = `[]`
 	}
 	var setting *datadoghqv1alpha1.ExtendedDaemonsetSetting
 	if in.setting != "" {
@@ -126,7 +139,7 @@ func ZZ_C10_create() {
 	pod, err := podutils.CreatePodFromDaemonSetReplicaSet(scheme, rs, node, setting, in.addAffinity)
 	// (a malformed override annotation is skipped; whether its decoding error is returned is not part of the property)
 	nondet.Assert("C10.create.pod-built", pod != nil)
-	if in.annotation != "malformed" {
+	if !in.unusable() {
 		nondet.Assert("C10.create.noerror", err == nil)
 	}
 	if pod == nil {
@@ -210,8 +223,8 @@ func ZZ_C10_roundtrip() {
 	params := &Parameters{EDSName: zzEDSName, Strategy: &ds.Spec.Strategy, Replicaset: rs}
 	ni := NewNodeItem(node, setting)
 
-	nondet.Fact("annotationAndSettingSameContainer", in.annotation != "" && in.annotation != "malformed" && in.setting == "agent")
-	nondet.Fact("malformedAnnotation", in.annotation == "malformed")
+	nondet.Fact("annotationAndSettingSameContainer", in.annotation != "" && !in.unusable() && in.setting == "agent")
+	nondet.Fact("malformedAnnotation", in.unusable())
 	// "a pod just created for given inputs is recognised as up to date for the same inputs"
 	nondet.Assert("C10.roundtrip.stable", compareCurrentPodWithNewPod(params, pod, ni))
 
@@ -233,7 +246,7 @@ func ZZ_C10_roundtrip() {
 		}
 	default:
 		// the setting now demands another value for a container of the pod that no annotation overrides
-		if in.setting == "agent" && (in.annotation == "" || in.annotation == "malformed") {
+		if in.setting == "agent" && (in.annotation == "" || in.unusable()) {
 			s2 := setting.DeepCopy()
 			s2.Spec.Containers[0].Resources = zzRes("750m")
 			nondet.Assert("C10.perturb.setting", !compareCurrentPodWithNewPod(params, pod, NewNodeItem(node, s2)))
